@@ -33,6 +33,25 @@ def unbits(n):
 # --------------------------------------------------------------------------
 # running the implementation
 
+def option_value(case):
+    '''the ignore_empty option as the boolean-like object the case asks for: bool, np.bool_
+    (what np.any(...) returns), 0/1, np.int64 0/1 -- all must behave as bool(value)'''
+    val = bool(case['ignore_empty'])
+    typ = case.get('ie_type', 'bool')
+    if typ == 'np_bool':
+        return np.True_ if val else np.False_
+    if typ == 'np_any':
+        return np.any(np.array([val, False]))
+    if typ == 'int':
+        return int(val)
+    if typ == 'np_int':
+        return np.int64(val)
+    return val
+
+
+IE_TYPES = ['np_bool', 'np_any', 'int', 'np_int']
+
+
 def run_impl(case, sets=None, alpha=None):
     from valjean.eponine.dataset import Dataset
     from valjean.gavroche.stat_tests.chi2 import TestChi2
@@ -52,7 +71,7 @@ def run_impl(case, sets=None, alpha=None):
                          for k, (v, e) in enumerate(sets if sets is not None else case['datasets'])]
                 test = TestChi2(*dsets, name='chi2',
                                 alpha=layouts.scalar(case['alpha'] if alpha is None else alpha, case.get('alpha_type')),
-                                ignore_empty=case['ignore_empty'])
+                                ignore_empty=option_value(case))
                 res = test.evaluate()
                 ndat = len(dsets) - 1
                 if len(res.chi2) != ndat or len(res.test.ndf) != ndat or len(res.pvalue) != ndat:
@@ -241,7 +260,7 @@ def inplace_history(ctx, case, obs):
                         'ndf': [int(x) for x in r.test.ndf], 'p': [bits(np.ma.filled(x, NAN)) for x in r.pvalue]}
 
             def new_test():
-                return TestChi2(*dsets, name='chi2', alpha=case['alpha'], ignore_empty=case['ignore_empty'])
+                return TestChi2(*dsets, name='chi2', alpha=case['alpha'], ignore_empty=option_value(case))
             test = new_test()
             if not obs_close(canon(test.evaluate()), obs, case['alpha']):
                 ctx.oracle_failure('the same numbers on writable arrays give another result' + tag, case,
@@ -527,13 +546,17 @@ def run(ctx):
     ctx.rule = ('corpus (docstring-like examples, all bins empty, one-sided zero errors, NaN/inf, scalars) + random '
                 'comparisons: scalar to 3-d, 1..3 compared datasets, both option values, zero-error patterns at rates '
                 '0..100% (correlated between the two datasets so that empty bins occur), NaN/inf only with the option '
-                'off, magnitudes 1e-321..1e304 (tiny, subnormal and huge errors/differences whose squares under/overflow, 22% of the cases), every combination of inf/NaN/0/finite errors across the two sides, arrays handed over in 7 memory layouts, 14% integer-valued data with int64/int32/uint/Python-int dtypes (all-int or mixed with float datasets), 12% datasets masked through Dataset.mask(), every test evaluated twice; on 40% of the cases an input array is edited IN PLACE between two evaluations (error scaled / one item set / zeros filled / values shifted / write through the parent of a sliced error array) and the same test and a new test must give what fresh datasets with the current numbers give + boundary cases alpha == p-value exactly (and its float neighbours); each '
+                'off, magnitudes 1e-321..1e304 (tiny, subnormal and huge errors/differences whose squares under/overflow, 22% of the cases), every combination of inf/NaN/0/finite errors across the two sides, arrays handed over in 7 memory layouts, 14% integer-valued data with int64/int32/uint/Python-int dtypes (all-int or mixed with float datasets), 12% datasets masked through Dataset.mask(), the ignore_empty option handed over as np.bool_ / np.any(...) result / 0-1 int / np.int64 in 40% of the cases and for every corpus case (must behave as bool(value)); every test evaluated twice; on 40% of the cases an input array is edited IN PLACE between two evaluations (error scaled / one item set / zeros filled / values shifted / write through the parent of a sliced error array) and the same test and a new test must give what fresh datasets with the current numbers give + boundary cases alpha == p-value exactly (and its float neighbours); each '
                 'case re-run with permuted bins; non-trivial = more than one bin, ndf > 0, and bins left out when the '
                 'option is on')
     cases = corpus()
     ctx.count('corpus', len(cases))
     extra = special_pair_cases()
     ctx.count('special_pair_cases', len(extra))
+    cases += extra
+    extra = [dict(c, ie_type=IE_TYPES[k % len(IE_TYPES)])
+             for k, c in enumerate(c for c in corpus() + magnitude_cases())]     # same cases, option not a bool
+    ctx.count('boolean_like_option_corpus_cases', len(extra))
     cases += extra
     extra = magnitude_cases()
     ctx.count('magnitude_corpus_cases', len(extra))
@@ -545,6 +568,8 @@ def run(ctx):
         case = gen_int_case(ctx.rng, quick) if q < 0.14 else gen_case(ctx.rng, quick)
         if 0.14 <= q < 0.28 and plain_numbers(case):
             case = add_masks(ctx.rng, case)
+        if ctx.rng.random() < 0.4:                  # the option as a boolean-like object that is not a bool
+            case = dict(case, ie_type=ctx.rng.choice(IE_TYPES))
         if ctx.rng.random() < 0.3:                  # alpha as a NumPy number
             atyp = ctx.rng.choice(layouts.ALPHA_TYPES[1:])
             case = dict(case, alpha_type=atyp,
@@ -576,6 +601,8 @@ def run(ctx):
             ctx.count('integer_dtype_cases')
         if case.get('alpha_type'):
             ctx.count('alpha_type_' + case['alpha_type'])
+        if case.get('ie_type'):
+            ctx.count(f"option_{case['ie_type']}_{bool(case['ignore_empty'])}")
         nontrivial = classify(ctx, case, obs)
         ctx.case_seen(case, nontrivial, sample_every=499)
         if 'raise' in obs:
